@@ -1,10 +1,444 @@
 package main
 
 import (
+	"encoding/json"
+	"fmt"
+	"io"
+	"os"
+	"os/exec"
+	"path/filepath"
+	"runtime"
+	"sort"
+	"strings"
+	"sync"
+	"time"
+
+	"golang.org/x/tools/go/ssa"
+	"golang.org/x/tools/go/ssa/ssautil"
+
 	"muxlint/internal/an"
+	"muxlint/internal/rules"
 )
 
-// thorough runs the additional steps of the thorough tier for one property.
+// thorough runs the additional steps of the thorough tier for one property:
+//  1. the GOARCH=386 configuration (all build-constrained files), same obligations and verdicts;
+//  2. shape preservation of generic instantiation (the templates analysed are what the instances execute);
+//  3. a second front end (go1.26.8 + x/tools v0.50.0) must produce the identical obligation list;
+//  4. the self-validation corpus of source edits for this property (breaking edits must be
+//     reported by the expected rule, benign edits must stay silent), one analyser process per variant.
+// A disagreement in 1-3 or a wrong corpus outcome is a checker error (exit 2), never a VIOLATION.
 func thorough(o *options, prog *an.Prog, pid string, rep *an.Report, extra map[string]any) ([]string, int) {
-	return nil, 0
+	var lines []string
+	code := 0
+	steps := []string{"default configuration"}
+	fail := func(format string, a ...any) {
+		lines = append(lines, "CHECKER-ERROR "+fmt.Sprintf(format, a...))
+		code = 2
+	}
+	base := oblMap(rep.Obls)
+
+	// 1. GOARCH=386
+	func() {
+		defer func() {
+			if r := recover(); r != nil {
+				fail("GOARCH=386 configuration: %v", r)
+			}
+		}()
+		p386 := an.Load(o.repo, false, "GOARCH=386")
+		other := runProperty(p386, pid)
+		if d := diffObls(base, oblMap(other.Obls)); d != "" {
+			fail("GOARCH=386 configuration disagrees with the default one: %s", d)
+		}
+		extra["goarch_386"] = map[string]any{"packages": len(p386.Pkgs), "functions": len(p386.Funcs), "obligations": len(other.Obls), "identical": code == 0}
+		steps = append(steps, fmt.Sprintf("GOARCH=386: %d packages, %d functions, %d obligations, identical verdicts", len(p386.Pkgs), len(p386.Funcs), len(other.Obls)))
+	}()
+
+	// 2. instantiation shape check
+	func() {
+		defer func() {
+			if r := recover(); r != nil {
+				fail("instantiated generics: %v", r)
+			}
+		}()
+		pi := an.Load(o.repo, true)
+		n, bad := instantiationShapes(pi)
+		if len(bad) > 0 {
+			fail("generic instantiation changes the shape of %d function bodies (first: %s)", len(bad), bad[0])
+		}
+		extra["instantiations_checked"] = n
+		steps = append(steps, fmt.Sprintf("InstantiateGenerics: %d instantiated bodies have the block/instruction shape of their templates", n))
+	}()
+
+	// 3. second front end
+	if os.Getenv("MUXLINT_SECOND_FRONTEND") != "off" {
+		bin, err := secondFrontEnd(o.root)
+		if err != nil {
+			steps = append(steps, "second front end: not available ("+err.Error()+")")
+			extra["second_front_end"] = "not available: " + err.Error()
+		} else {
+			tmp, _ := os.MkdirTemp("", "muxlint-fe2-")
+			defer os.RemoveAll(tmp)
+			out := filepath.Join(tmp, "obls.json")
+			cmd := exec.Command(bin, "-property", pid, "-tier", "quick", "-repo", o.repo, "-verif", o.root, "-evidence", filepath.Join(tmp, "ev"), "-json", out)
+			cmd.Env = append(os.Environ(), "GOTOOLCHAIN=local", "PATH=/opt/veriftools/go1.26.8/bin:"+os.Getenv("PATH"))
+			b, _ := cmd.CombinedOutput()
+			var l []struct {
+				Key string `json:"key"`
+				OK  bool   `json:"ok"`
+			}
+			data, rerr := os.ReadFile(out)
+			if rerr != nil || json.Unmarshal(data, &l) != nil {
+				fail("second front end produced no obligation list: %s", firstLines(string(b), 3))
+			} else {
+				other := map[string]bool{}
+				for _, x := range l {
+					other[x.Key] = x.OK
+				}
+				if d := diffObls(base, other); d != "" {
+					fail("second front end (go1.26.8 + x/tools v0.50.0) disagrees: %s", d)
+				}
+				extra["second_front_end"] = map[string]any{"toolchain": "go1.26.8", "x_tools": "v0.50.0", "obligations": len(l), "identical": true}
+				steps = append(steps, fmt.Sprintf("second front end (go1.26.8, x/tools v0.50.0): %d obligations, identical keys and verdicts", len(l)))
+			}
+		}
+	}
+
+	// 4. corpus
+	if !o.noCorpus {
+		res := runCorpus(o, pid)
+		extra["corpus"] = res
+		steps = append(steps, fmt.Sprintf("self-validation corpus: %d entries, %d as expected, %d skipped", res.Entries, res.AsExpected, res.Skipped))
+		for _, w := range res.Wrong {
+			fail("corpus entry %s", w)
+		}
+	}
+	extra["tier_steps"] = steps
+	return lines, code
+}
+
+func firstLines(s string, n int) string {
+	ls := strings.Split(strings.TrimSpace(s), "\n")
+	if len(ls) > n {
+		ls = ls[:n]
+	}
+	return strings.Join(ls, " | ")
+}
+
+func runProperty(p *an.Prog, pid string) *an.Report {
+	spec := rules.Lookup(pid)
+	rep := an.NewReport(pid)
+	a := rules.Resolve(p)
+	ctx := rules.NewCtx(p, a, rep)
+	spec.Run(ctx)
+	return rep
+}
+
+func oblMap(obls []*an.Obligation) map[string]bool {
+	m := map[string]bool{}
+	for _, o := range obls {
+		m[o.Key] = o.OK
+	}
+	return m
+}
+
+func diffObls(a, b map[string]bool) string {
+	var d []string
+	for k, v := range a {
+		w, ok := b[k]
+		if !ok {
+			d = append(d, "missing "+k)
+		} else if v != w {
+			d = append(d, "verdict differs for "+k)
+		}
+	}
+	for k := range b {
+		if _, ok := a[k]; !ok {
+			d = append(d, "extra "+k)
+		}
+	}
+	sort.Strings(d)
+	if len(d) > 3 {
+		d = append(d[:3], fmt.Sprintf("… %d more", len(d)-3))
+	}
+	return strings.Join(d, "; ")
+}
+
+// instantiationShapes compares every instantiated function body with its generic origin.
+func instantiationShapes(p *an.Prog) (int, []string) {
+	n := 0
+	var bad []string
+	for f := range ssautil.AllFunctions(p.SSA) {
+		if len(f.TypeArgs()) == 0 || f.Origin() == nil || !an.InModule(f) || len(f.Blocks) == 0 || strings.Contains(f.Synthetic, "wrapper") {
+			continue
+		}
+		o := f.Origin()
+		if len(o.Blocks) == 0 {
+			continue
+		}
+		n++
+		if len(f.Blocks) != len(o.Blocks) {
+			bad = append(bad, an.FuncKey(f)+": block count")
+			continue
+		}
+		for i := range f.Blocks {
+			if len(f.Blocks[i].Succs) != len(o.Blocks[i].Succs) {
+				bad = append(bad, an.FuncKey(f)+": successors")
+				break
+			}
+			if shapeOf(f.Blocks[i]) != shapeOf(o.Blocks[i]) {
+				bad = append(bad, fmt.Sprintf("%s: block %d instruction kinds", an.FuncKey(f), i))
+				break
+			}
+		}
+	}
+	sort.Strings(bad)
+	return n, bad
+}
+
+func shapeOf(b *ssa.BasicBlock) string {
+	var sb strings.Builder
+	for _, in := range b.Instrs {
+		switch in.(type) {
+		case *ssa.ChangeType, *ssa.MakeInterface, *ssa.ChangeInterface, *ssa.Convert, *ssa.MultiConvert, *ssa.TypeAssert:
+			// conversions may appear or disappear when a type parameter is replaced by a concrete type
+			continue
+		}
+		fmt.Fprintf(&sb, "%T;", in)
+	}
+	return sb.String()
+}
+
+// secondFrontEnd builds (once) the analyser with go1.26.8 against x/tools v0.50.0.
+func secondFrontEnd(root string) (string, error) {
+	goBin := "/opt/veriftools/go1.26.8/bin/go"
+	if _, err := os.Stat(goBin); err != nil {
+		if p, err2 := exec.LookPath("go1.26.8"); err2 == nil {
+			goBin = p
+		} else {
+			return "", fmt.Errorf("go1.26.8 not found")
+		}
+	}
+	bin := filepath.Join(root, "bin", "muxlint-v050")
+	src := filepath.Join(root, "checker")
+	if st, err := os.Stat(bin); err == nil {
+		newer := false
+		filepath.Walk(src, func(path string, info os.FileInfo, err error) error {
+			if err == nil && strings.HasSuffix(path, ".go") && info.ModTime().After(st.ModTime()) {
+				newer = true
+			}
+			return nil
+		})
+		if !newer {
+			return bin, nil
+		}
+	}
+	cmd := exec.Command(goBin, "build", "-modfile=go.v050.mod", "-o", bin, "./cmd/muxlint")
+	cmd.Dir = src
+	cmd.Env = append(os.Environ(), "GOFLAGS=-mod=mod", "GOPROXY=off", "GOSUMDB=off", "GOTOOLCHAIN=local", "GOWORK=off")
+	if out, err := cmd.CombinedOutput(); err != nil {
+		return "", fmt.Errorf("build with go1.26.8 failed: %s", firstLines(string(out), 2))
+	}
+	return bin, nil
+}
+
+// ---- corpus ----
+
+type corpusEntry struct {
+	Name   string `json:"name"`
+	File   string `json:"file"`
+	Old    string `json:"old"`
+	New    string `json:"new"`
+	Edits  []struct {
+		File string `json:"file"`
+		Old  string `json:"old"`
+		New  string `json:"new"`
+	} `json:"edits,omitempty"`
+	Expect string `json:"expect"` // "violation:C03.R1" (rule prefix) or "silent"
+	Why    string `json:"why,omitempty"`
+}
+
+type corpusResult struct {
+	Entries    int      `json:"entries"`
+	AsExpected int      `json:"as_expected"`
+	Skipped    int      `json:"skipped"`
+	Wrong      []string `json:"wrong,omitempty"`
+	Details    []string `json:"details"`
+}
+
+func runCorpus(o *options, pid string) *corpusResult {
+	res := &corpusResult{}
+	dir := filepath.Join(o.root, "corpus", pid)
+	files, _ := filepath.Glob(filepath.Join(dir, "*.json"))
+	sort.Strings(files)
+	var entries []corpusEntry
+	for _, f := range files {
+		data, err := os.ReadFile(f)
+		if err != nil {
+			continue
+		}
+		var es []corpusEntry
+		if err := json.Unmarshal(data, &es); err != nil {
+			var e corpusEntry
+			if err2 := json.Unmarshal(data, &e); err2 != nil {
+				res.Wrong = append(res.Wrong, filepath.Base(f)+": unreadable: "+err.Error())
+				continue
+			}
+			es = []corpusEntry{e}
+		}
+		entries = append(entries, es...)
+	}
+	res.Entries = len(entries)
+	if len(entries) == 0 {
+		return res
+	}
+	self, _ := os.Executable()
+	par := runtime.NumCPU() / 2
+	if par > 8 {
+		par = 8
+	}
+	if par < 1 {
+		par = 1
+	}
+	sem := make(chan struct{}, par)
+	var mu sync.Mutex
+	var wg sync.WaitGroup
+	for i := range entries {
+		e := entries[i]
+		wg.Add(1)
+		sem <- struct{}{}
+		go func() {
+			defer wg.Done()
+			defer func() { <-sem }()
+			verdict, detail := runCorpusEntry(self, o, pid, e)
+			mu.Lock()
+			defer mu.Unlock()
+			res.Details = append(res.Details, e.Name+": "+verdict+" — "+detail)
+			switch verdict {
+			case "as-expected":
+				res.AsExpected++
+			case "skipped":
+				res.Skipped++
+			default:
+				res.Wrong = append(res.Wrong, e.Name+": "+detail)
+			}
+		}()
+	}
+	wg.Wait()
+	sort.Strings(res.Details)
+	sort.Strings(res.Wrong)
+	return res
+}
+
+func copyTree(src, dst string) error {
+	return filepath.Walk(src, func(path string, info os.FileInfo, err error) error {
+		if err != nil {
+			return err
+		}
+		rel, _ := filepath.Rel(src, path)
+		if info.IsDir() {
+			if info.Name() == ".git" {
+				return filepath.SkipDir
+			}
+			return os.MkdirAll(filepath.Join(dst, rel), 0o755)
+		}
+		if !info.Mode().IsRegular() {
+			return nil
+		}
+		in, err := os.Open(path)
+		if err != nil {
+			return err
+		}
+		defer in.Close()
+		out, err := os.Create(filepath.Join(dst, rel))
+		if err != nil {
+			return err
+		}
+		defer out.Close()
+		_, err = io.Copy(out, in)
+		return err
+	})
+}
+
+func runCorpusEntry(self string, o *options, pid string, e corpusEntry) (string, string) {
+	tmp, err := os.MkdirTemp("", "muxlint-corpus-")
+	if err != nil {
+		return "error", err.Error()
+	}
+	defer os.RemoveAll(tmp)
+	work := filepath.Join(tmp, "repo")
+	if err := copyTree(o.repo, work); err != nil {
+		return "error", "copy: " + err.Error()
+	}
+	edits := e.Edits
+	if e.File != "" {
+		edits = append(edits, struct {
+			File string `json:"file"`
+			Old  string `json:"old"`
+			New  string `json:"new"`
+		}{e.File, e.Old, e.New})
+	}
+	for _, ed := range edits {
+		path := filepath.Join(work, ed.File)
+		data, err := os.ReadFile(path)
+		if err != nil {
+			return "skipped", "file " + ed.File + " not present in the tree under test"
+		}
+		if strings.Count(string(data), ed.Old) < 1 {
+			return "skipped", "the text to edit no longer occurs in " + ed.File
+		}
+		os.WriteFile(path, []byte(strings.Replace(string(data), ed.Old, ed.New, 1)), 0o644)
+	}
+	env := append(os.Environ(), "GOFLAGS=-mod=mod", "GOPROXY=off", "GOSUMDB=off", "GOTOOLCHAIN=local", "GOWORK=off")
+	build := exec.Command("go", "build", "./...")
+	build.Dir = work
+	build.Env = env
+	if out, err := build.CombinedOutput(); err != nil {
+		return "error", "variant does not compile: " + firstLines(string(out), 2)
+	}
+	start := time.Now()
+	outJSON := filepath.Join(tmp, "obls.json")
+	cmd := exec.Command(self, "-property", pid, "-tier", "quick", "-repo", work, "-verif", o.root, "-evidence", filepath.Join(tmp, "ev"), "-json", outJSON, "-obligations")
+	cmd.Env = env
+	out, _ := cmd.CombinedOutput()
+	exit := cmd.ProcessState.ExitCode()
+	_ = start
+	var failedRules []string
+	for _, l := range strings.Split(string(out), "\n") {
+		l = strings.TrimSpace(l)
+		if strings.HasPrefix(l, "FAIL ") {
+			f := strings.Fields(l)
+			if len(f) > 1 {
+				failedRules = append(failedRules, f[1])
+			}
+		}
+	}
+	switch {
+	case e.Expect == "silent":
+		if exit == 0 {
+			return "as-expected", "benign edit, no report"
+		}
+		return "wrong", fmt.Sprintf("benign edit raised exit %d: %s", exit, firstLines(grepLines(string(out), "FAIL", "CHECKER-ERROR"), 2))
+	case strings.HasPrefix(e.Expect, "violation:"):
+		want := strings.TrimPrefix(e.Expect, "violation:")
+		for _, r := range failedRules {
+			if strings.HasPrefix(r, want) {
+				return "as-expected", "reported by " + r
+			}
+		}
+		return "wrong", fmt.Sprintf("breaking edit not reported by %s (exit %d, failed rules %v) %s", want, exit, failedRules, firstLines(grepLines(string(out), "CHECKER-ERROR"), 1))
+	}
+	return "error", "unknown expectation " + e.Expect
+}
+
+func grepLines(s string, subs ...string) string {
+	var out []string
+	for _, l := range strings.Split(s, "\n") {
+		for _, sub := range subs {
+			if strings.Contains(l, sub) {
+				out = append(out, strings.TrimSpace(l))
+				break
+			}
+		}
+	}
+	return strings.Join(out, "\n")
 }
